@@ -190,9 +190,13 @@ func NewExec(cfg M) (*Exec, error) {
 	switch S(cfg, "tls") {
 	case "empty":
 		// an empty certificate list reaches the server through the option or through the exported field
-		if I(cfg, "_tlsfield") == 1 {
+		switch I(cfg, "_tlsfield") {
+		case 1:
 			emptyViaField = true
-		} else {
+		case 2:
+			// a list that is empty but not nil (room reserved for certificates loaded later)
+			opts = append(opts, wire.TLSConfig(&tls.Config{Certificates: make([]tls.Certificate, 0, 4)}))
+		default:
 			opts = append(opts, wire.TLSConfig(&tls.Config{}))
 		}
 	case "cert":
@@ -200,7 +204,18 @@ func NewExec(cfg M) (*Exec, error) {
 		if err != nil {
 			return nil, err
 		}
-		opts = append(opts, wire.TLSConfig(&tls.Config{Certificates: []tls.Certificate{c}}))
+		tc := &tls.Config{Certificates: []tls.Certificate{c}}
+		// settings of the TLS layer that leave the protocol above it alone: client certificates asked for but
+		// optional (the harness's client presents none), a minimum version
+		switch I(cfg, "_tlsvar") {
+		case 1:
+			tc.ClientAuth = tls.RequestClientCert
+		case 2:
+			tc.ClientAuth = tls.VerifyClientCertIfGiven
+		case 3:
+			tc.MinVersion = tls.VersionTLS12
+		}
+		opts = append(opts, wire.TLSConfig(tc))
 	}
 	srv, err := wire.NewServer(x.parse, opts...)
 	if err != nil {
